@@ -415,7 +415,7 @@ def scripted(ctx, objdir):
     rng = ctx.rng
     impl = Impl(ctx, objdir)
     cases = [dict(w) for w in WITNESSES]
-    n = ctx.n(200, 1500)
+    n = ctx.n(200, 1300)
     for i in range(n):
         cases.append(gen_case(rng))
     for k in cases:
@@ -481,7 +481,7 @@ def common_meta(ctx):
         "Coq 8.16.1 kernel incl. vm_compute; no axioms (Print Assumptions: closed under the global context)",
         "hand-written model coq/theories/C19/Model.v of python/trace-python.c (init_filters, match_filter [ERE subset "
         "^ $ . literals; glob subset * ? literals; simple], apply_filters, can_trace, event dispatch, "
-        "get_python_funcname/get_c_funcname, code_tree/symtab) and coq/theories/C19/SymFile.v (write_symtab, line reader) "
+        "get_python_funcname/get_c_funcname, code_tree/symtab) and coq/theories/C19/SymFile.v (write_symtab, line reader), coq/theories/C19/Lazy.v (lazy ENTRY write of libmcount) "
         "incl. the call-depth test (depth_guard)",
         "harness/py/c19_driver.py (synthetic frame objects, real builtin objects), harness/c/c19_fakemcount.c (logs hook calls), "
         "props/c19.py (parser of `uftrace replay` output, program generator; python.fake.sym is compared byte for byte in Coq)",
